@@ -24,8 +24,13 @@ fn gen_wsteps(t: &mut Tape, n: usize) -> Vec<WStep> {
 }
 
 fn async_into<F: Family>(p: &F::Packet, steps: &[WStep], one_byte: bool, len: usize) -> Result<(Vec<u8>, usize), String> {
+    async_into_v::<F>(p, steps, one_byte, len, false)
+}
+
+fn async_into_v<F: Family>(p: &F::Packet, steps: &[WStep], one_byte: bool, len: usize, vectored: bool) -> Result<(Vec<u8>, usize), String> {
     let mut w = ScriptedWriter::new(steps, len);
     w.one_byte = one_byte;
+    w.vectored = vectored;
     let (r, pend) = sio::drive(F::encode_async(p, &mut w), len + steps.len() + 16);
     match r {
         Ok(()) => Ok((w.out, pend)),
@@ -77,6 +82,11 @@ pub fn entry_points<F: Family>(p: &F::Packet, t: &mut Tape, ctx: &mut Ctx) -> Ca
         Err(e) => viol!("encode_async through a one-byte-per-write sink failed: {}", e),
     }
     let steps = gen_wsteps(t, bytes.len());
+    // the same script on a sink that implements vectored writes (short vectored writes may end anywhere)
+    match async_into_v::<F>(p, &steps, false, bytes.len(), true) {
+        Ok((out, _)) => ensure!(out == bytes, "encode_async into a sink with vectored writes under script {:?} emitted {} instead of {}", steps, hex_short(&out, 48), hex_short(&bytes, 48)),
+        Err(e) => viol!("encode_async into a sink with vectored writes failed: {}", e),
+    }
     let partial = steps.iter().any(|s| matches!(s, WStep::Accept(k) if *k < bytes.len()));
     let pending = steps.iter().any(|s| *s == WStep::Pending);
     match async_into::<F>(p, &steps, false, bytes.len()) {
@@ -107,6 +117,28 @@ pub fn entry_points<F: Family>(p: &F::Packet, t: &mut Tape, ctx: &mut Ctx) -> Ca
             Some(Ok(())) => ensure!(sw.out == body, "body streaming encoder wrote different bytes under partial writes {:?}", wsteps),
             other => viol!("body streaming encoder failed under partial writes: {:?}", other),
         }
+        for k in [1usize, 3, 7] {
+            let vs: Vec<WStep> = if k == 7 { wsteps.clone() } else { Vec::new() };
+            let mut vw = ScriptedWriter::new(&vs, body.len());
+            vw.vectored = true;
+            vw.one_byte = k == 1;
+            if k == 3 {
+                // three bytes per call: a short vectored write regularly ends inside a field
+                let st: Vec<WStep> = (0..body.len() / 3 + 2).map(|_| WStep::Accept(3)).collect();
+                let mut vw3 = ScriptedWriter::new(&st, body.len());
+                vw3.vectored = true;
+                match F::body_encode(p, &mut vw3) {
+                    Some(Ok(())) => ensure!(vw3.out == body, "body streaming encoder into a sink with short vectored writes (3 bytes per call) wrote {} instead of {}", hex_short(&vw3.out, 48), hex_short(&body, 48)),
+                    other => viol!("body streaming encoder failed into a vectored sink: {:?}", other),
+                }
+                continue;
+            }
+            match F::body_encode(p, &mut vw) {
+                Some(Ok(())) => ensure!(vw.out == body, "body streaming encoder into a sink with short vectored writes wrote {} instead of {}", hex_short(&vw.out, 48), hex_short(&body, 48)),
+                other => viol!("body streaming encoder failed into a vectored sink: {:?}", other),
+            }
+        }
+        ctx.label("vectored-sinks");
         ctx.label("has-body-struct");
     } else {
         ctx.label("no-body-struct");
